@@ -709,10 +709,18 @@ class Rectangle(Shape):
         bool
             True if `point` is inside the rectangle, False otherwise.
         """
-        min_x = min(self._lower_coord.real, self._upper_coord.real)
-        max_x = max(self._lower_coord.real, self._upper_coord.real)
-        min_y = min(self._lower_coord.imag, self._upper_coord.imag)
-        max_y = max(self._lower_coord.imag, self._upper_coord.imag)
+        # The two corners are stored without the rotation, while the
+        # `vertices` property rotates the rectangle around its center.
+        # Undo that rotation in the point (relative to the center) so
+        # that the test agrees with the rectangle given by `vertices`.
+        lower = self._lower_coord - self.pos
+        upper = self._upper_coord - self.pos
+        point = Shape.calc_rotated_pos(point - self.pos, -self.rotation)
+
+        min_x = min(lower.real, upper.real)
+        max_x = max(lower.real, upper.real)
+        min_y = min(lower.imag, upper.imag)
+        max_y = max(lower.imag, upper.imag)
 
         point_x = point.real
         point_y = point.imag
